@@ -1,5 +1,6 @@
 import GramModel
 import Driver.Sexp
+import Driver.ParserOps
 
 /-! Line-protocol driver: one op per input line, one result per output line. -/
 
@@ -154,7 +155,7 @@ def runStore (fuel : Nat) (xs : List Sx) : String :=
         if s1.nerrs == 0 then s!"ok | {es} | {ts} | {ctxSame s0 s1}"
         else s!"err {s1.nerrs} | {ctxSame s0 s1}"
       | .fuel => "out-of-fuel"
-      | .panic p => s!"panic {p}"
+      | .panic _ => "panic"
     | _, _, _, _ => "bad-op"
   | [.atom "unify", st, dc, a, b] =>
     match storeOfSx st, dctxOfSx dc, tmOfSx a, tmOfSx b with
@@ -166,7 +167,7 @@ def runStore (fuel : Nat) (xs : List Sx) : String :=
         let (bs, _) := canonTm s1.store b c
         s!"{r} | {as} | {bs} | {ctxSame s0 s1}"
       | .fuel => "out-of-fuel"
-      | .panic p => s!"panic {p}"
+      | .panic _ => "panic"
     | _, _, _, _ => "bad-op"
   | [.atom "whnf", st, dc, a] =>
     match storeOfSx st, dctxOfSx dc, tmOfSx a with
@@ -175,7 +176,7 @@ def runStore (fuel : Nat) (xs : List Sx) : String :=
       match whnfS fuel a s0 with
       | .ok r s1 => s!"{(canonTm s1.store r {}).1} | {ctxSame s0 s1}"
       | .fuel => "out-of-fuel"
-      | .panic p => s!"panic {p}"
+      | .panic _ => "panic"
     | _, _, _ => "bad-op"
   | [.atom "syneq", st, a, b] =>
     match storeOfSx st, tmOfSx a, tmOfSx b with
@@ -183,7 +184,7 @@ def runStore (fuel : Nat) (xs : List Sx) : String :=
       match synEqS fuel a b { store := store } with
       | .ok r _ => s!"{r}"
       | .fuel => "out-of-fuel"
-      | .panic p => s!"panic {p}"
+      | .panic _ => "panic"
     | _, _, _ => "bad-op"
   | _ => "bad-op"
 
@@ -256,6 +257,7 @@ def runOp (xs : List Sx) : String :=
     | _, _, _ => "bad-op"
   | .atom "infer" :: _ | .atom "unify" :: _ | .atom "whnf" :: _ | .atom "syneq" :: _ =>
     runStore 6000 xs
+  | .atom "parse" :: _ | .atom "parsestats" :: _ => runParserOp xs
   | _ => "bad-op"
 
 partial def loop (h : IO.FS.Stream) (out : IO.FS.Stream) : IO Unit := do
